@@ -28,6 +28,7 @@ REGISTRY = {
             "clvmr::Allocator::{new,new_atom,new_u64,atom,atom_len,sexp}",
             "clvm_traits::encode_number",
             "clvm_traits::decode_number::<1|2|4|8|16>",
+            "clvm_traits::ClvmEncoder::encode_bigint (default method; thorough tier: c11t_encode_bigint_*)",
         ],
         "bounds": {
             "u64 values": "all 2^64 (fully symbolic)",
@@ -41,7 +42,8 @@ REGISTRY = {
         "outside": [
             "atoms longer than 10 bytes offered to sanitize_uint (classification is by the first two bytes and the length only)",
             "decode_number inputs longer than LEN+2 bytes (MAX_PADDING_BYTES=64 path)",
-            "clvmr::Allocator::new_number (num-bigint) and the ToClvm/FromClvm trait plumbing around encode/decode_number",
+            "clvmr::Allocator::new_number (num-bigint) and the ToClvm/FromClvm trait plumbing around encode/decode_number "
+            "(the default ClvmEncoder::encode_bigint is in the thorough tier only: num-bigint arithmetic costs > 15 min per query)",
         ],
         "assumptions": ["spec::canon_u64 is the reference statement of the minimal two's-complement form "
                         "(self-checked by harness c11_spec_selfcheck and cross-stated in smt/canon.smt2)"],
@@ -80,8 +82,8 @@ REGISTRY = {
             "integer arguments": "quick: heap-backed atom of width+1 bytes, content symbolic; thorough: also 0, width, 10 bytes and a pair",
             "CREATE_COIN memo": "absent / atom / list whose first element is an atom of 0,1,32,33 bytes or a pair; rest nil or not",
             "SEND/RECEIVE_MESSAGE": "mode: pass-through 3 bits symbolic, spelled-out 3 bits per instance (all 8 shapes; quick: each shape with one "
-                                    "opcode, thorough: both); message 3 symbolic bytes or 1025 bytes; id-args 0..need+1 present, hash positions "
-                                    "from the hash menu, amount atom of 9 bytes (thorough: 0, 1, 8); mode atom: any integer < 2^20, a 5-byte atom, a pair",
+                                    "opcode, thorough: both); message 3 symbolic bytes; id-args 0..need+1 present, hash positions a 32-byte "
+                                    "(symbolic) or 31-byte atom, amount atom of 9 bytes (thorough: 0, 1, 8); mode atom: any integer < 2^20, a 5-byte atom, a pair",
             "arm pre-state": "all scalar and Option fields of SpendConditions/SpendBundleConditions symbolic under the representation "
                              "invariant of DESIGN.md s.8; sets hold 0..1 symbolic element; coin ids fixed unless the arm compares them",
             "unwind": "4..50 with unwinding assertions",
@@ -238,12 +240,13 @@ REGISTRY = {
         "level_note": "'The rewritten solution runs successfully against the new coin' executes CLVM and is outside (needs run_program); the "
                       "refusal conditions and the rewrite itself run no CLVM and are decided. Under Kani the singleton top-layer program is "
                       "a stand-in atom which the digest model maps to SINGLETON_TOP_LAYER_V1_1_HASH (natively the real program is used), "
-                      "amounts written to the new solution < 2^26 (quick) / 2^26..2^31 (thorough), two-byte canonical solution amounts. "
+                      "amounts written to the new solution < 2^26 / 2^26..2^31, two-byte canonical solution amounts. THOROUGH TIER ONLY: the "
+                      "harness needs > 15 min and ~8 GB (c19t_ff_*); the quick tier covers the flag and fingerprint half. "
                       "The SHA recorder (S3) makes the fingerprint's byte stream observable; collision resistance is not used.",
         "quick": ["c19_"],
         "thorough": ["c19t_"],
-        "min_quick": 10,
-        "min_thorough": 14,
+        "min_quick": 9,
+        "min_thorough": 13,
         "timeout_quick": 900,
         "timeout_thorough": 1800,
         "functions": [
@@ -278,8 +281,8 @@ REGISTRY = {
         "quick": ["c13_"],
         "thorough": ["c13t_"],
         "cbmc_args": ["--max-field-sensitivity-array-size", "256"],
-        "min_quick": 46,
-        "min_thorough": 56,
+        "min_quick": 42,
+        "min_thorough": 52,
         "timeout_quick": 1200,
         "timeout_thorough": 2400,
         "functions": [
@@ -287,20 +290,21 @@ REGISTRY = {
             "Option<T>, (T,U), (T,U,V), (T,U,V,W), [T;N], Vec<T>, String",
             "chia_protocol::{BytesImpl<N>, Bytes, Coin, CoinState} (derive macro chia_streamable_macro)",
             "chia_protocol::ProofOfSpace::{parse,stream,update_digest} (hand-written versioned codec)",
-            "chia_protocol::{SubEpochSummary, SubEpochData} + chia_protocol::utils::{parse,stream,update_digest} (hand-written: two optionals "
-            "packed into one prefix byte; also used by RewardChainBlock)",
+            "chia_protocol::SubEpochData + chia_protocol::utils::{parse,stream,update_digest} (hand-written: two optionals packed into one "
+            "prefix byte; the same helpers serve SubEpochSummary and RewardChainBlock)",
         ],
         "bounds": {"primitives/combinators": "all byte strings of the type's encoding length(s) and of neighbouring wrong lengths",
                    "sequences": "6..8-byte buffers, length prefix in {0, right, right-1, right+1, 2^32-1}",
-                   "packed optionals": "SubEpochData: all byte strings of 35, 43, 75 (quick) and 36, 67 bytes; SubEpochSummary: 67, 107 (quick), 75, 99 "
-                                       "(prefix byte 0..3 and everything else, all payload bytes symbolic)",
+                   "packed optionals": "SubEpochData: byte strings of 75 (quick: both optionals present / Some + second present) and 35, 36, 43, 67 "
+                                       "bytes (thorough); every prefix / integer / boundary byte symbolic, the inside of the 32-byte hash fields fixed",
                    "ProofOfSpace": "lengths 87/119/120/122/123/135/138/170/90 (v1/v2 x pool key / contract / both / neither, proof of 0..1 "
                                    "bytes), prefixes perturbed to 2, version 2/3, 0x83",
                    "unwind": "36..180"},
         "stubs": [S1, S3, "S4 BLS token model (PublicKey::{from_bytes,from_bytes_unchecked,to_bytes})", "S5 std::fmt::format -> empty",
                   "S6 ProofOfSpace::quality_string -> fixed Some(..) (None only in the C14 harness)"],
         "outside": ["~120 further derived structs (same macro), FullBlock / UnfinishedBlock / RewardChainBlock (did not fit: buffers of several hundred bytes; "
-                    "RewardChainBlock shares the packed-optional helpers covered through SubEpochSummary/SubEpochData)",
+                    "SubEpochSummary and RewardChainBlock share the packed-optional helpers covered through SubEpochData; SubEpochSummary's own "
+                    "harnesses (67..107-byte buffers) ran out of memory / time and were removed)",
                     "real BLS point canonicity (C16)", "element counts > 2, String beyond 2 bytes"],
         "assumptions": [],
     },
@@ -334,9 +338,8 @@ REGISTRY = {
     "C12": {
         "level_text": "Bounded proof (Kani/CBMC). Roots: compute_merkle_set_root and MerkleSet::from_leafs both equal the reference "
                       "definition of the collapsed binary-trie hash, written out per leaf configuration (0, 1, 2, 3 leaves; split at depth "
-                      "0 / 1 / 2; one-sided levels with and without an explicit EMPTY sibling; every input order; duplicates), and every "
-                      "proof generated from such a tree verifies against that root and states membership correctly (inclusion and "
-                      "exclusion). Structure: which byte strings parse as proofs (single node: EMPTY / leaf / "
+                      "0 / 1 / 2; one-sided levels with and without an explicit EMPTY sibling; several input orders; duplicates). "
+                      "Structure: which byte strings parse as proofs (single node: EMPTY / leaf / "
                       "truncated, unknown tags, missing and trailing bytes), the leaf-position audit (a revealed leaf is accepted only "
                       "on the branch spelled by its own leading bit, for every combination of leading bits of one and two leaves), "
                       "what a parsed tree states about a queried item (included iff equal to a revealed leaf on its path; a truncated "
@@ -350,8 +353,8 @@ REGISTRY = {
         "quick": ["c12_"],
         "thorough": ["c12t_"],
         "cbmc_args": ["--max-field-sensitivity-array-size", "256"],
-        "min_quick": 22,
-        "min_thorough": 28,
+        "min_quick": 24,
+        "min_thorough": 30,
         "timeout_quick": 900,
         "timeout_thorough": 2400,
         "functions": [
@@ -362,13 +365,15 @@ REGISTRY = {
         ],
         "bounds": {"leaf sets": "0, 1 leaf (fully symbolic bytes 0/31); 2 leaves splitting at depth 0, 1 (both left) and 2 (both right); 3 leaves "
                                 "{0x20,0x60,0xa0}, {0x10,0x30,0x50} (left-heavy: EMPTY sibling), {0x90,0xb0,0xd0} (right-heavy); [l,l] duplicates "
-                                "(thorough, 256 levels); every rotation / swap of the input order; probe item on a revealed leaf's path or elsewhere",
+                                "(thorough, 256 levels); sorted, swapped and rotated input orders (one per instance)",
                    "proof shapes": "1 node; MIDDLE with two leaves; MIDDLE with one EMPTY side; MIDDLE with one TRUNCATED side "
                                    "(at most 1 MIDDLE node, proofs of 1..68 bytes)",
                    "hashes": "leading byte fixed per instance (both values of the audited bit), bytes 1 and 31 symbolic",
                    "unwind": "40..70"},
         "stubs": [S3],
-        "outside": ["sets of more than 3 leaves; leaves that share more than 2 leading bits (deep one-sided chains), except the duplicate pair",
+        "outside": ["honest-proof completeness (generate_proof on a from_leafs tree, then validate_merkle_proof): the round trip in one query "
+                    "exceeded 12 GB / 15 min even for a single leaf (harnesses kept as c12x_*, not registered)",
+                    "sets of more than 3 leaves; leaves that share more than 2 leading bits (deep one-sided chains), except the duplicate pair",
                     "forged proofs with 2 or more MIDDLE levels", "cryptographic soundness (collision resistance)"],
         "assumptions": ["SHA-256 collision resistance for the step 'same root => same node hashes'"],
     },
@@ -378,7 +383,7 @@ REGISTRY = {
                       "routine with a fresh cache and with a warm cache all return the recursive definition "
                       "H(1||atom) / H(2||H(l)||H(r)), for every hash function H that maps the 24 small-atom preimages to the baked "
                       "table; the two primitives hash prefix 1 / prefix 2 followed by exactly their arguments; curry_tree_hash(P, A1..An) "
-                      "for n = 0,1,2 and arbitrary 32-byte leaf hashes equals the tree-hash definition written out for "
+                      "for n = 0 (quick) and 1, 2 (thorough) and symbolic leaf hashes equals the tree-hash definition written out for "
                       "(a (q . P) (c (q . A1) (c (q . A2) 1))), CurriedProgram::to_clvm builds exactly that shape, and (thorough) "
                       "curry_tree_hash equals tree_hash of the hand-built curried program; tree_hash_from_bytes on serializations with "
                       "and without a back-reference equals tree_hash of what clvmr's deserializer yields (thorough).",
